@@ -3,7 +3,9 @@ package c14
 
 import (
 	"math"
+	"os"
 	"sort"
+	"strconv"
 	"testing"
 
 	"github.com/ctessum/geom"
@@ -16,6 +18,9 @@ type Case struct {
 	AsMulti bool        `json:"as_multi,omitempty"`
 	P       vkit.GJ     `json:"p"` // Polygon | MultiPolygon | Bounds
 	Place   string      `json:"place"`
+	// ScaleExp k: Clip runs on line and polygon multiplied exactly by 2^k; its result is divided by 2^k again before the
+	// oracle (which works on the unscaled case) looks at it
+	ScaleExp int `json:"scale_exp,omitempty"`
 }
 
 func gen(t *rapid.T) Case {
@@ -86,6 +91,12 @@ func gen(t *rapid.T) Case {
 			l = l[cut:]
 		}
 		c.AsMulti = len(c.Lines) > 1 || c.AsMulti
+	}
+	if rapid.IntRange(0, 2).Draw(t, "scaled") == 1 {
+		c.ScaleExp = rapid.OneOf(rapid.IntRange(-11, 40), rapid.IntRange(-11, 40), rapid.IntRange(-11, 40), rapid.IntRange(-60, -11), rapid.IntRange(-200, 200)).Draw(t, "scale_exp")
+	}
+	if f := os.Getenv("VERIF_C14_FORCEK"); f != "" { // threshold experiments only (DESIGN.md section 5)
+		c.ScaleExp, _ = strconv.Atoi(f)
 	}
 	return c
 }
@@ -221,11 +232,54 @@ func run(c Case) (v vkit.Verdict) {
 	if want == 0 {
 		v.Class("expected_empty")
 	}
-	P := c.P.Geom().(geom.Polygonal)
+	sc, inv := 1.0, 1.0
+	if c.ScaleExp != 0 {
+		sc, inv = math.Ldexp(1, c.ScaleExp), math.Ldexp(1, -c.ScaleExp)
+		exact := true
+		all := append([]vkit.P2{}, c.P.Flatten()...)
+		for _, l := range c.Lines {
+			all = append(all, l...)
+		}
+		for _, q := range all {
+			for _, f := range q {
+				if x := float64(f); (x*sc)*inv != x || (x != 0 && math.Abs(x*sc) < 1e-290) || math.IsInf(x*sc, 0) {
+					exact = false
+				}
+			}
+		}
+		if exact {
+			v.Class("scaled_by_power_of_two")
+		} else {
+			sc, inv = 1, 1
+			v.Class("scaling_not_exact_run_unscaled")
+		}
+	}
+	scalePts := func(r []vkit.P2) []vkit.P2 {
+		out := make([]vkit.P2, len(r))
+		for i, p := range r {
+			out[i] = vkit.MkP(float64(p[0])*sc, float64(p[1])*sc)
+		}
+		return out
+	}
+	PS := vkit.GJ{T: c.P.T}
+	if c.P.Pts != nil {
+		PS.Pts = scalePts(c.P.Pts)
+	}
+	for _, r := range c.P.Rings {
+		PS.Rings = append(PS.Rings, scalePts(r))
+	}
+	for _, pg := range c.P.Polys {
+		var q [][]vkit.P2
+		for _, r := range pg {
+			q = append(q, scalePts(r))
+		}
+		PS.Polys = append(PS.Polys, q)
+	}
+	P := PS.Geom().(geom.Polygonal)
 	var L geom.Linear
 	ml := make(geom.MultiLineString, len(c.Lines))
 	for i, l := range c.Lines {
-		ml[i] = vkit.GJ{T: "LineString", Pts: l}.Geom().(geom.LineString)
+		ml[i] = vkit.GJ{T: "LineString", Pts: scalePts(l)}.Geom().(geom.LineString)
 	}
 	L = ml
 	if !c.AsMulti && len(ml) == 1 {
@@ -238,6 +292,13 @@ func run(c Case) (v vkit.Verdict) {
 	rm, ok := res.(geom.MultiLineString)
 	if !ok {
 		return v.Fail("%T.Clip returned %T, want MultiLineString", L, res)
+	}
+	for i := range rm {
+		u := make(geom.LineString, len(rm[i]))
+		for j, q := range rm[i] {
+			u[j] = geom.Point{X: q.X * inv, Y: q.Y * inv}
+		}
+		rm[i] = u
 	}
 	got := rm.Length()
 	if vkit.Off(got-want, 1e-9*(want+scale)) {
@@ -279,6 +340,22 @@ func run(c Case) (v vkit.Verdict) {
 // nearVerticalEdge recognises the inputs of known finding `near_vertical_edge` (the same root cause as in C01): a polygon
 // edge or line segment whose end points differ in x by a non-zero amount below 1e-12 of the extent; the sweep-line
 // clipper of the polyclip-go dependency mis-orders it.
+// tinyAbsoluteScale: known finding `absolute_tolerances_at_tiny_scale` (see props/c01 for the derivation): the clipper
+// of the dependency compares against absolute constants that are no longer negligible when the larger of polygon and
+// line is smaller than 1e-3 coordinate units as handed to Clip.
+func tinyAbsoluteScale(c Case) bool {
+	if c.ScaleExp >= 0 {
+		return false
+	}
+	x0, y0, x1, y1 := bb(c.P.Flatten())
+	scale := math.Max(x1-x0, y1-y0)
+	for _, l := range c.Lines {
+		a0, b0, a1, b1 := bb(l)
+		scale = math.Max(scale, math.Max(a1-a0, b1-b0))
+	}
+	return scale*math.Ldexp(1, c.ScaleExp) < 1e-3
+}
+
 func nearVerticalEdge(c Case) bool {
 	pp := vkit.PolysOf(c.P)
 	scale := 0.0
@@ -307,7 +384,7 @@ func nearVerticalEdge(c Case) bool {
 func TestProp(t *testing.T) {
 	vkit.Main(t, vkit.Spec[Case]{
 		ID: "C14",
-		Rule: "rapid: simple open line strings (self-avoiding walks, hooks, spirals, zig-zags, x-monotone lines; 2-40 vertices, 1 in 30 with 260-700) and multi-line strings of 1-3 members, " +
+		Rule: "rapid: in 1 case of 3 line and polygon are handed to Clip multiplied exactly by 2^k (the result is divided by 2^k again; the oracle works at unit scale); simple open line strings (self-avoiding walks, hooks, spirals, zig-zags, x-monotone lines; 2-40 vertices, 1 in 30 with 260-700) and multi-line strings of 1-3 members, " +
 			"scaled/placed relative to a valid polygonal P (star polygon or (1 in 3) non-star comb/snake band, 0-3 holes, multi-polygon of 1-3 members, box): across, inside, through a hole, outside near, " +
 			"outside far. Cases where the multi-line is not simple (own O(n^2) test, margin 1e-7*scale) or a line vertex / polygon vertex is within that margin of the other " +
 			"geometry are skipped and counted. Oracle: every line segment is cut at its intersections with every polygon edge and the pieces whose midpoint is inside P " +
@@ -316,6 +393,6 @@ func TestProp(t *testing.T) {
 		Assumptions: []string{"general position enforced by filter", "oracle in vkit (SegIntersection, PIP) trusted"},
 		Gen:         gen,
 		Run:         run,
-		Known:       map[string]func(Case) bool{"near_vertical_edge": nearVerticalEdge},
+		Known:       map[string]func(Case) bool{"near_vertical_edge": nearVerticalEdge, "absolute_tolerances_at_tiny_scale": tinyAbsoluteScale},
 	})
 }
